@@ -323,14 +323,19 @@ func auditSpecs(c *vlib.Ctx) []caseSpec {
 			}
 		}
 	}
-	// root states (see rootStates): names of up to 2 segments
+	// root states (see rootStates): names of up to 2 segments for fstree, where the state
+	// decides which directory a query walks; single segments for the other components
 	for _, rs := range sets {
 		if only != "" && only != rs.comp {
 			continue
 		}
 		for _, state := range rootStates[rs.comp] {
 			for _, chain := range rs.chains {
-				for _, r := range rels(chain[len(chain)-1], 2) {
+				k := 1
+				if rs.comp == "fstree" {
+					k = 2
+				}
+				for _, r := range rels(chain[len(chain)-1], k) {
 					for _, pf := range prefixes {
 						if rs.comp == "scan" && pf == prefNone {
 							continue
@@ -369,7 +374,7 @@ func runAudit(c *vlib.Ctx, work string) {
 	if len(specs) == 0 {
 		return
 	}
-	const children = 8
+	const children = 12
 	type part struct {
 		lo, hi int
 		recs   []auditRecord
